@@ -2482,10 +2482,15 @@ impl Server {
 
     fn remove_health_check_state(&mut self, cluster_id: &str) {
         self.health_checker.remove_cluster(cluster_id);
+        // `set_health_check_config(None)` removes the configuration and resets
+        // every backend of the cluster to healthy, as documented for
+        // `cluster health-check remove`: nothing probes them any more, so a
+        // backend that was marked DOWN would otherwise stay excluded for good,
+        // and a stale failure streak would count towards the thresholds of a
+        // health check configured later.
         self.backends
             .borrow_mut()
-            .health_check_configs
-            .remove(cluster_id);
+            .set_health_check_config(cluster_id, None);
     }
 
     fn remove_backend(&mut self, req_id: &str, backend: &RemoveBackend) -> WorkerResponse {
